@@ -3,6 +3,8 @@ CONSTANTS Chans = {0, 1, 2}
  ProjSets = {{}, {1}, {0, 2}}
  MaxSteps = 100
  OffResetsPause = TRUE
+ CountEntries = FALSE
+ MaxRemovals = 1
  SimDepth = 14
 INVARIANTS Emit
 CHECK_DEADLOCK FALSE
